@@ -439,6 +439,12 @@ CORPUS = [
       "EMPTY_TUPLE", "REDUCE", "TUPLE2", "STOP"]],
     [["NONE", "STOP"]],
     [["EMPTY_LIST", "STOP"], ["EMPTY_LIST", "STOP"]],
+    # text-protocol pickles whose FIRST opcode sits at stream offset 0 and does not re-encode to its own
+    # bytes from its decoded argument (`I01` = True, `L5L`, quoted STRING): untouched members must come out
+    # byte-identical (seeded change C18 r3: raw-byte capture skipped for the opcode at offset 0)
+    [[("INT", asm.RawArg(b"01\n")), "STOP"], [("BININT1", 1), "STOP"], [("INT", asm.RawArg(b"00\n")), "STOP"]],
+    [[("LONG", asm.RawArg(b"1180591620717411303424L\n")), "STOP"], ["EMPTY_LIST", ("BININT1", 2), "APPEND", "STOP"]],
+    [[("STRING", asm.RawArg(b"'abc'\n")), "STOP"], [("INT", asm.RawArg(b"01\n")), "STOP"]],
 ]
 
 
